@@ -3,7 +3,7 @@ CONSTANTS
   Mode = "WebRtc"
   HasDc = TRUE
   Traffic = FALSE
-  Deviations = {"OverwriteClosed", "LoopsDoneSilent", "HsRunnerDoneWaits", "StrongRefInConnLoop", "WaitConnectedBlind", "SigOverwriteClosed", "SendCheckThenPark"}
+  Deviations = {"OverwriteClosed", "LoopsDoneSilent", "HsRunnerDoneWaits", "StrongRefInConnLoop", "WaitConnectedBlind", "SigOverwriteClosed", "SendCheckThenPark", "ExitDoesNotWake"}
   Props = {"EXT", "C17.Stable", "C17.Reason", "C17.CloseOnce", "C17.NoHang", "C17.Released", "C17.Terminal", "C17.LocalClosed", "C17.DoubleClose"}
   MaxEvents = 9
   PhaseSet = {"renegotiating"}
